@@ -92,8 +92,14 @@ def r61(ctx, api):
     # routes
     gi = api.func('ParquetFile.__getitem__')
     st_call = [c for c in ast.walk(gi) if isinstance(c, ast.Call) and callee(c) == 'new_pf.__setstate__']
-    if not st_call or not isinstance(st_call[0].args[0], ast.Dict):
-        raise AnalysisError('R6.1: state dict of __getitem__ not found')
+    if not st_call:
+        raise AnalysisError('R6.1: __setstate__ call of __getitem__ not found')
+    literal = isinstance(st_call[0].args[0], ast.Dict)
+    ctx.ob('R6.1', 'api.__getitem__:sliced-handle-state-is-an-explicit-dict', literal,
+           'the state handed to the sliced handle is `%s`: copying the parent\'s whole __dict__ also copies caches computed '
+           'from the parent\'s row groups (statistics, categories)' % norm(st_call[0].args[0])[:80], api.loc(gi))
+    if not literal:
+        return
     slice_keys = {k.value for k in st_call[0].args[0].keys if isinstance(k, ast.Constant)}
     gs = api.func('ParquetFile.__getstate__')
     ret = [s for s in gs.body if isinstance(s, ast.Return)]
